@@ -77,7 +77,7 @@ def run_static(ctx, prop, scenario, variants, sections, rule, level="model_check
                         continue
             k = dict(c)
             k.update({"id": len(cases), "impl": v["impl"], "cores": v.get("cores", 1), "split": v.get("split", 1),
-                      "keys": keys, "ids": ids, "queries": qs, "sections": sections})
+                      "keys": keys, "ids": ids, "queries": qs, "sections": v.get("sections", sections)})
             cases.append(k)
     if cases:
         c0 = cases[min(len(cases) - 1, 11)]
